@@ -15,7 +15,6 @@ class References:
       self._add_item_to_unconnected_group(item, True)
     else:
       self._add_item_to_connected_group(item, True)
-      self.compute_induced_set() # check contiguity
 
   def prepend_item(self, item):
     """
@@ -30,7 +29,6 @@ class References:
       self._add_item_to_unconnected_group(item, False)
     else:
       self._add_item_to_connected_group(item, False)
-      self.compute_induced_set() # check contiguity
 
   def rm_first_item(self):
     """
@@ -44,9 +42,7 @@ class References:
     if not self.is_connected():
       self.items = self.items[1:]
     else:
-      self.items[0].update_reference(self, "paths")
-      self._delete_reference(self.items[0], "items")
-      self.compute_induced_set() # check contiguity
+      self._rm_item_from_connected_group(0)
 
   def rm_last_item(self):
     """
@@ -60,11 +56,10 @@ class References:
     if not self.is_connected():
       self.items = self.items[0:-1]
     else:
-      self.items[-1].update_reference(self, "paths")
-      self._delete_reference(self.items[-1], "items")
-      self.compute_induced_set() # check contiguity
+      self._rm_item_from_connected_group(-1)
 
   def _add_item_to_unconnected_group(self, item, append = True):
+    item = gfapy.OrientedLine(item)
     if isinstance(item.line, gfapy.Line):
       item.line = item.name
     if append:
@@ -73,8 +68,24 @@ class References:
       self.items.insert(0, item)
 
   def _add_item_to_connected_group(self, item, append = True):
-    item.line = self.prepare_and_check_ref(item.line)
-    self._add_reference(item, "items", append = append)
+    item = gfapy.OrientedLine(item)
+    item.validate()
+    item = gfapy.OrientedLine(self._prepare_and_check_ref(item.line),
+                              item.orient)
+    items = self.get("items")
+    if append:
+      items.append(item)
+    else:
+      items.insert(0, item)
+
+  def _rm_item_from_connected_group(self, idx):
+    items = self.get("items")
+    if not items:
+      raise gfapy.NotFoundError(
+        "Line: {}\n".format(self)+
+        "The group has no items")
+    item = items.pop(idx)
+    self._forget_item(item.line)
 
   def _initialize_references(self):
     for i in range(len(self.items)):
